@@ -347,8 +347,11 @@ def run(repo: Repo, L: Ledger, tier: str):
                     tx = norm(t).replace(" ", "")
                     if tx.endswith("isnotNone") and v:
                         had_prev = True
-                    if isinstance(t, ast.Compare) and len(t.ops) == 1 and isinstance(t.ops[0], ast.NotEq) and tx.endswith(f"!={iv}-1"):
-                        nonconsec = v
+                    if isinstance(t, ast.Compare) and len(t.ops) == 1 and isinstance(t.ops[0], ast.NotEq | ast.Eq):
+                        sides = {norm(t.left).replace(" ", ""), norm(t.comparators[0]).replace(" ", "")}
+                        # last != i - 1   /   last + 1 != i   (either operand order)
+                        if f"{iv}-1" in sides or (iv in sides and any(x.endswith("+1") or x.startswith("1+") for x in sides)):
+                            nonconsec = v if isinstance(t.ops[0], ast.NotEq) else (not v)
             if e.kind == "stmt":
                 for c in [x for x in [e.node, *walk_shallow(e.node)] if isinstance(x, ast.Call) and isinstance(x.func, ast.Attribute) and x.func.attr == "add_row"]:
                     a = c.args[0]
@@ -359,6 +362,8 @@ def run(repo: Repo, L: Ledger, tier: str):
         if frag_adds and had_prev and nonconsec is True and not gap_adds:
             ok5, why5 = False, "two left-over contigs that were NOT consecutive rows in the input are placed next to each other with no gap row on a path (e.g. input a,b,c without gaps, only b found: a and c become directly adjacent)"
         if gap_adds:
+            if nonconsec is not True:
+                ok5, why5 = False, "a gap row is added between two left-over contigs on a path that has not established that they were NOT consecutive rows of the input: contigs that abut in the input (no gap row between them) come back separated by a gap"
             if not had_prev:
                 ok5, why5 = False, "a gap row is added without a test that a fragment was added before it (scaffold could start with a gap)"
             if not frag_adds or frag_adds[-1] < gap_adds[-1][0]:
